@@ -648,3 +648,97 @@ def r09_4(ctx):
                 nonneg = True
     ctx.check(rem, R, key + '|offset reduced modulo the period', b.loc(), 'dash_offset %= total', 'dash_offset is not reduced modulo the period (large offsets would loop for a long time)')
     ctx.check(nonneg, R, key + '|negative offset wrapped', b.loc(), 'dash_offset += total when negative', 'a negative dash_offset is not wrapped into [0, period)')
+
+
+def r09_5(ctx):
+    """the new subpath's start is the last thing the MoveTo arm emits (flushing the previous buffered dash afterwards
+    would move the builder's current point away from it)"""
+    R = 'R09.5'
+    b = ctx.body(DASH, R)
+    an = ctx.an(b)
+    cfg = an.cfg
+    key = 'dash::dash_path'
+    m = op_match(ctx, b, R)
+    if m is None or 'MoveTo' not in m.arms:
+        return
+    region = arm_region(cfg, m.bb, m.arms['MoveTo'])
+    emits = [(bi, d, ct) for bi, d, ct in calls_in(ctx, b, region) if d in (PB + 'move_to', PB + 'line_to', PB + 'close')]
+    starts = []
+    for bi, d, ct in emits:
+        if d == PB + 'move_to':
+            a1, a2 = strip_all(ct[2][1]), strip_all(ct[2][2])
+            def pay(t, c):
+                return t[0] == 'field' and t[2] == c and strip_all(t[1])[0] == 'field' and strip_all(t[1])[4] == 'MoveTo'
+            if pay(a1, 'x') and pay(a2, 'y'):
+                starts.append(bi)
+    if not ctx.check(len(starts) == 1, R, key + '|subpath start emitted', b.loc(), 'MoveTo arm emits move_to(pt) once', 'the MoveTo arm emits the new subpath start %d times, expected once' % len(starts)):
+        return
+    sb = starts[0]
+    later = [bi for bi, d, ct in emits if bi != sb and cfg.can_reach(sb, [bi]) and bi in region]
+    # reachability inside the arm only (not around the op loop)
+    stop = cfg.ipdom(m.bb)
+    later = [bi for bi in later if bi in cfg.reachable_from(sb, removed=[stop] if stop is not None else [])]
+    ctx.check(not later, R, key + '|start emitted last', call_line(b, sb), 'nothing is emitted after move_to(pt) in the MoveTo arm',
+              'the MoveTo arm emits the new subpath start and then flushes the previous buffered dash: the builder\'s current point is left at the end of the old dash, so the first pieces of the new subpath (and a closed subpath inside its first dash) are connected to the previous subpath by a spurious line')
+
+
+def r09_1b(ctx):
+    """per-subpath state: every user variable that is initialised to a constant before the op loop and reassigned
+    inside the LineTo/Close arms is re-initialised to that constant on every path of the MoveTo arm"""
+    R = 'R09.1'
+    b = ctx.body(DASH, R)
+    an = ctx.an(b)
+    cfg = an.cfg
+    key = 'dash::dash_path'
+    m = op_match(ctx, b, R)
+    if m is None or 'MoveTo' not in m.arms:
+        return
+    loops = cfg.loops()
+    op_loop = None
+    for h, bl in loops.items():
+        if m.bb in bl and (op_loop is None or len(bl) > len(loops[op_loop])):
+            op_loop = h
+    if op_loop is None:
+        ctx.fail(R, key + '|op loop', b.loc(), 'cannot find the op loop (fail closed)')
+        return
+    inloop = loops[op_loop]
+    mregion = arm_region(cfg, m.bb, m.arms['MoveTo'])
+    work = set()
+    for v in ('LineTo', 'Close'):
+        if v in m.arms:
+            work |= arm_region(cfg, m.bb, m.arms[v])
+    stop = cfg.ipdom(m.bb)
+    def const_sig(t):
+        t = strip_all(t)
+        if t[0] == 'const':
+            return ('const', t[2])
+        if is_call(t, 'Vec::<T>::new') and not t[2]:
+            return ('empty-vec',)
+        if t[0] == 'agg' and not t[4] and t[3] in ('None',):
+            return ('none',)
+        return None
+    n = 0
+    for l, ds in sorted(an.defs_of.items()):
+        nm = b.locals[l].get('name')
+        if not nm:
+            continue
+        init = [d for d in ds if d.bb not in inloop and d.kind in ('assign', 'call') and not d.partial and cfg.dominates(d.bb, op_loop)]
+        if len(init) != 1:
+            continue
+        it = an.def_term(init[0]) if init[0].kind == 'assign' else an.call_term(init[0].bb)
+        sig = const_sig(it)
+        if sig is None or sig == ('none',):
+            continue
+        if not any(d.bb in work for d in ds):
+            continue
+        n += 1
+        blocks = set()
+        for d in ds:
+            if d.bb in mregion and d.kind in ('assign', 'call') and not d.partial:
+                t = an.def_term(d) if d.kind == 'assign' else an.call_term(d.bb)
+                if const_sig(t) == sig:
+                    blocks.add(d.bb)
+        ok, _p = cfg.must_pass_through(m.arms['MoveTo'], blocks, exits=[stop] if stop is not None else None)
+        ctx.check(ok and bool(blocks), R, key + '|MoveTo re-initialises ' + nm, b.loc(), '`%s` reset to its initial value %s at every MoveTo' % (nm, sig),
+                  'per-subpath state `%s` (initialised to %s before the op loop and changed while dashing a subpath) is not reset on every path of the MoveTo arm: the next subpath starts with the previous subpath\'s value (e.g. a later closed subpath inside its first dash is not closed)' % (nm, sig))
+    ctx.floor(R, 'per-subpath state variables of dash_path', n, 3)
